@@ -1500,7 +1500,7 @@ def run(run):
     t = run.thorough
     cases = load_corpus()
     run.count("corpus", len(cases))
-    n_cache_small, n_cache_big = (150, 40) if t else (18, 4)
+    n_cache_small, n_cache_big = (150, 40) if t else (16, 4)
     for _ in range(n_cache_small):
         cases.append(gen_cache_case(rng, t))
     for _ in range(n_cache_big):
